@@ -148,6 +148,9 @@ func (configgen *ConfigGeneratorImpl) BuildDeltaClusters(proxy *model.Proxy, upd
 
 		deletedClusters.InsertAll(deleted...)
 	}
+	// ConfigsUpdated is a set: order the services by hostname (they are unique by hostname here), so that the order of
+	// the clusters in the delta response does not follow map iteration order.
+	services = slices.SortBy(services, func(s *model.Service) host.Name { return s.Hostname })
 	envoyFilterPatches := updates.Push.EnvoyFilters(proxy)
 	clusters, log := configgen.buildClusters(proxy, updates, services, envoyFilterPatches)
 	// DeletedClusters contains list of all subset clusters for the deleted DR or updated DR.
